@@ -1181,6 +1181,10 @@ def tie_C10(ctx):
             for o in cont:
                 c += op_lines(0, [o]) + op_lines(1, [o])
             c += ["eq 0 1"]
+            if g not in REAL_EQ:
+                # IsaacRng / Isaac64Rng have no `==` of their own (the harness' `eq` compares their cores): `eqw` is "unsupported"
+                # unless the type gains a PartialEq, in which case it must be a congruence like any other
+                c = [("eqw 0 1" if l == "eq 0 1" else l) for l in c]
             cases.append(c)
             meta.append((g, kind, eq_at))
             ctx.dist[f"pair:{['clone','clone_from','same-history','near-miss'][kind]}"] += 1
